@@ -1064,17 +1064,52 @@ pub fn generate(seed: u64, knobs: &Knobs) -> C10Scenario {
                         body: Body::Text(body),
                     });
                 }
-                let set_config = |text: String| match &world.config_path {
-                    Some(path) => Op::Edit {
-                        path: path.clone(),
-                        body: Body::Text(text),
-                    },
-                    None => Op::ConfigObject { text },
-                };
-                new_ops.push(set_config(new_text));
-                new_ops.push(Op::FailFastNext);
-                new_ops.push(Op::Pass);
-                new_ops.push(set_config(old_text));
+                if rh.chance(1, 2) {
+                    // no configuration change: some sources are edited so that work is
+                    // pending, the fail-fast pass may stop after having finished some of
+                    // it, and afterwards something a finished item depends on changes
+                    let healthy: Vec<usize> =
+                        (0..world.sources.len()).filter(|i| !world.sources[*i].broken).collect();
+                    for _ in 0..healthy.len().min(3) {
+                        let i = *rh.pick(&healthy);
+                        let mut s = world.sources[i].clone();
+                        s.version += 1;
+                        let body = world.render(&s);
+                        world.sources[i] = s.clone();
+                        new_ops.push(Op::Edit {
+                            path: s.path,
+                            body: Body::Text(body),
+                        });
+                    }
+                    new_ops.push(Op::FailFastNext);
+                    new_ops.push(Op::Pass);
+                    let required: Vec<usize> = (0..world.sources.len())
+                        .filter(|i| !world.sources[*i].broken && is_required(&world, &world.sources[*i].path))
+                        .collect();
+                    if !required.is_empty() {
+                        let i = *rh.pick(&required);
+                        let mut s = world.sources[i].clone();
+                        s.version += 1;
+                        let body = world.render(&s);
+                        world.sources[i] = s.clone();
+                        new_ops.push(Op::Edit {
+                            path: s.path,
+                            body: Body::Text(body),
+                        });
+                    }
+                } else {
+                    let set_config = |text: String| match &world.config_path {
+                        Some(path) => Op::Edit {
+                            path: path.clone(),
+                            body: Body::Text(text),
+                        },
+                        None => Op::ConfigObject { text },
+                    };
+                    new_ops.push(set_config(new_text));
+                    new_ops.push(Op::FailFastNext);
+                    new_ops.push(Op::Pass);
+                    new_ops.push(set_config(old_text));
+                }
             }
             97 => {
                 // a module outside the input that nothing required at start-up: created,
